@@ -11,9 +11,25 @@ package tup
 //@   requires u != nil && u.data != nil && validR(is)
 //@   let p0 = is.buf.i
 //@   let allocbudget = len(is.buf.src)
-//@   modifies is.buf.i, is.depth, mapcells(u.data)
+//@   modifies is.buf.i, is.depth, is.rderr, mapcells(u.data)
 //@   allocates
 //@   ensures [C05] is.buf.i >= p0
 //@   ensures [C05] validR(is)
+// C06: an error reported by any codec call, and an attribute value that is present but not a byte vector (the only
+// fmt.Errorf of the function), make Decode fail: ghost is.rderr is raised at those points, must be false again at the
+// loop head and implies a non-nil result.
+//@   site ).Skip#0 ghost is.rderr = false
+//@   site ).Skip#0 ghostafter is.rderr = is.rderr || $ret1 != nil
+//@   site ).Skip#1 ghostafter is.rderr = is.rderr || $ret2 != nil
+//@   site ).Skip#2 ghostafter is.rderr = is.rderr || $ret1 != nil
+//@   sites ).Skip = 3
+//@   site ).Read#0 ghostafter is.rderr = is.rderr || $ret != nil
+//@   site ).Read#1 ghostafter is.rderr = is.rderr || $ret != nil
+//@   site ).Read#2 ghostafter is.rderr = is.rderr || $ret != nil
+//@   site ).Read#3 ghostafter is.rderr = is.rderr || $ret != nil
+//@   sites ).Read = 4
+//@   site Errorf#0 ghost is.rderr = true
+//@   ensures [C06] is.rderr ==> result != nil
+//@   loop 0 invariant [C06] !is.rderr
 //@   loop 0 invariant [C05] validR(is) && is.buf.i >= p0 && u != nil && u.data != nil
 //@   safety [C05]
